@@ -48,7 +48,10 @@ func (s *MemoryDevice) GetBrightness(_ context.Context, req *traits.GetBrightnes
 func (s *MemoryDevice) UpdateBrightness(ctx context.Context, request *traits.UpdateBrightnessRequest) (*traits.Brightness, error) {
 	if request.GetBrightness().GetPreset() != nil {
 		res, err := s.brightness.Set(request.GetBrightness())
-		return res.(*traits.Brightness), err
+		if err != nil {
+			return nil, err // there is no updated value to convert
+		}
+		return res.(*traits.Brightness), nil
 	}
 
 	if err := resource.ValidateTweenOnUpdate("brightness", request.GetBrightness().GetBrightnessTween()); err != nil {
